@@ -25,7 +25,7 @@ def spreading(d_deg, mean_deg, s):
 
 def make_case(rng, kind=None, nd=None, npoints=None, positive=False):
     """kind: windsea | mixed | random | swell"""
-    kind = str(kind or rng.choice(["windsea", "windsea", "mixed", "random"]))
+    kind = str(kind or rng.choice(["windsea", "windsea", "mixed", "random", "veering"]))
     nd = int(nd or rng.choice([16, 24, 36]))
     nf = int(rng.integers(20, 41))
     npnt = int(npoints or rng.integers(1, 9))
@@ -43,7 +43,7 @@ def make_case(rng, kind=None, nd=None, npoints=None, positive=False):
             wdir[i] = (float(rng.integers(0, nd)) + 0.5) * 360.0 / nd  # exactly between two bins
         else:
             wdir[i] = float(rng.uniform(0, 360))
-        if kind in ("windsea", "mixed"):
+        if kind in ("windsea", "mixed", "veering"):
             # young, steep wind sea roughly aligned with the wind
             fp = float(np.clip(G / (2 * np.pi * u10[i]) * rng.uniform(0.9, 1.6), 0.08, 0.35))
             lp = G / (2 * np.pi * fp ** 2)
@@ -53,6 +53,15 @@ def make_case(rng, kind=None, nd=None, npoints=None, positive=False):
                 u10[i] *= float(rng.uniform(0.5, 0.8))
             e = jonswap(f, fp, hs, gamma=float(rng.uniform(1.0, 5.0)))
             E[i] = e[:, None] * spreading(d, wdir[i] + rng.uniform(-30, 30), float(rng.uniform(2, 12)))[None, :]
+            if kind == "veering":
+                # a turning wind: the short waves have veered by 20..80 degrees relative to the peak, so that the
+                # dissipation-weighted direction, the stress direction and the wind direction all differ
+                veer = float(rng.uniform(20, 80) * rng.choice([-1, 1]))
+                base_dir = wdir[i] + rng.uniform(-20, 20)
+                spr = float(rng.uniform(3, 8))
+                for jf in range(nf):
+                    d0 = base_dir + veer * max(f[jf] - fp, 0.0) / max(f[-1] - fp, 1e-6)
+                    E[i, jf, :] = e[jf] * spreading(d, d0, spr)
             if kind == "mixed":
                 es = jonswap(f, float(rng.uniform(0.06, 0.09)), float(rng.uniform(0.5, 2.5)), gamma=6.0)
                 E[i] += es[:, None] * spreading(d, rng.uniform(0, 360), 25.0)[None, :]
